@@ -123,6 +123,10 @@ def generate(rng, tier):
             cases.append([undelayed_ring, connect_ring, sc.gen_relay2_ring, sc.gen_pull_ring, sc.gen_ring_staggered, sc.gen_ring_mixed][(i // 10) % 6](rng))
         else:
             cases.append(sc.gen_dag(rng, cyclic=True, late_start=False))
+    # every special family a fixed number of times (the rotation above reaches each about four times per quick run)
+    for g in (undelayed_ring, connect_ring, sc.gen_relay2_ring, sc.gen_pull_ring, sc.gen_ring_staggered, sc.gen_ring_mixed):
+        for _ in range(8 if tier == "quick" else 120):
+            cases.append(g(rng))
     # rings resolved by a CALENDAR delay: monitor only (outside the integer-time Coq model)
     for _ in range(20 if tier == "quick" else 300):
         cases.append(sc.gen_calendar_ring(rng))
